@@ -49,6 +49,7 @@ def families(tier):
         ("M-exotic-letters", lambda: (enum2d.exotic(c) for c in enum2d.M(7, nmin=2)), 1),
         ("many-stems", lambda: __import__("mc.props.c02", fromlist=["x"])._many_stems(tier), 1),
         ("long-chains", lambda: __import__("mc.props.c02", fromlist=["x"])._long_chains(tier), 1),
+        ("long-stems", lambda: __import__("mc.props.c02", fromlist=["x"])._long_stems(tier), 1),
         ("many-groups", lambda: __import__("mc.props.c16", fromlist=["x"])._many_groups(), 1),
         ("D", lambda: enum2d.D(4 if q else 5), 1),
         ("Lad", lambda: ({**enum2d.ladder(K, gap=g), "ladder": K} for K in range(1, 32) for g in (0, 1)), 1),
@@ -66,8 +67,9 @@ def families(tier):
 
 def _multistrand(L):
     for n in range(2, L + 1):
-        for s in enum2d.balanced_strings(n, (0, 1)):
-            if "(" not in s and "[" not in s:
+        # round + square brackets, and round + angle brackets (a strand may BEGIN with the closing angle bracket '>', the character that also opens a header line)
+        for s in itertools.chain(enum2d.balanced_strings(n, (0, 1)), (x for x in enum2d.balanced_strings(n, (0, 3)) if "<" in x)):
+            if "(" not in s and "[" not in s and "<" not in s:
                 continue
             for cuts in itertools.chain([()], itertools.combinations(range(1, n), 1), itertools.combinations(range(1, n), 2)):
                 for header in (False, True):
